@@ -214,7 +214,7 @@ ToBytes(ts) == Bytes(Atoms(ts, 1))
 
 (* the boundary family (real constants) *)
 E1Offs == {0, 1, 2, 64, 126, 127}
-E2Offs == {128, 129, 255, 256, 383, 384, 511, 512, 638, 639}
+E2Offs == IF Big THEN {128, 129, 255, 256, 383, 384, 511, 512, 638, 639} ELSE {128, 129, 255, 256, 384, 511, 512, 639}
 E3Near == {128, 255, 256, 639, 640}
 E3Far  == {128 + 8191, 128 + 8192, 128 + 16256, 128 + 16382, 128 + 16383}
 LongLens  == {3, 4, 34, 35, 257, 258}
